@@ -319,3 +319,48 @@ Theorem C10_feature_vector_roundtrip : forall on_curve k n r,
   exists e, enc_f FFeat (VB (feat_of_N k n)) = Some e /\
             dec_f on_curve FFeat (e ++ r) = Some (VB (feat_of_N k n), r).
 Proof. exact feature_vector_roundtrip. Qed.
+
+(* ------------------------------------------------------------------ *)
+(* default-elided records of the pure-TLV messages (ChannelUpdate2: disable flags, cltv delta,
+   htlc minimum, fees; chain hash of ChannelUpdate2 / ChannelAnnouncement2).  The encoder
+   writes the record iff `emit value`; the decoder stores d when the record is absent. *)
+
+(* every value round-trips EXACTLY when the encoder never elides a non-default value *)
+Theorem C10_elided_roundtrip_iff : forall emit d,
+  (forall v, el_decode d (el_encode emit v) = v) <-> (forall v, emit v = false -> v = d).
+Proof. exact elide_roundtrip_iff. Qed.
+
+(* with the test "value <> default": values round-trip, and decode-then-encode of any wire
+   form is canonical (an explicitly sent default is dropped, everything else reproduced) *)
+Theorem C10_elided_canonical : forall emit d,
+  (forall v, emit v = negb (v =? d)) ->
+  (forall v, el_decode d (el_encode emit v) = v) /\
+  (forall w, el_encode emit (el_decode d w) =
+             match w with Some v => if v =? d then None else w | None => None end).
+Proof. exact elide_canonical. Qed.
+
+(* a test that elides some non-default value loses it: decode (encode v) = d <> v *)
+Theorem C10_elided_lossy : forall emit d v,
+  emit v = false -> v <> d -> el_decode d (el_encode emit v) <> v.
+Proof.
+  intros emit d v He Hv. unfold el_decode, el_encode. rewrite He. intros H. apply Hv. symmetry. exact H.
+Qed.
+
+(* T1: every elision site read from lnwire's record-collecting methods has a test of a shape
+   that means "value <> c", and c is the default its Decode method fills in *)
+Theorem C10_gen_elisions_ok : forallb elision_ok gen_elisions = true.
+Proof. vm_compute. reflexivity. Qed.
+
+Theorem C10_gen_elisions_sound : forall e d,
+  In e gen_elisions -> el_default e = DConst d ->
+  forall v, el_decode d (el_encode (etest_fn (el_test e)) v) = v.
+Proof.
+  intros e d Hin Hd. pose proof C10_gen_elisions_ok as H. rewrite forallb_forall in H.
+  specialize (H e Hin). apply (C10_elided_canonical _ d). apply elision_ok_spec; assumption.
+Qed.
+
+(* the sites are exactly these (message type, record type) pairs *)
+Theorem C10_gen_elisions_sites :
+  map (fun e => (el_msg e, el_type e)) gen_elisions =
+  [(267, 0); (271, 0); (271, 6); (271, 10); (271, 12); (271, 16); (271, 18)].
+Proof. vm_compute. reflexivity. Qed.
